@@ -74,6 +74,7 @@ inline const char* intern(const std::string& s) {
 struct Kinds {
   unsigned long long state;
   int fixedString = -1;  // force a string kind for every string argument
+  bool preferSet = false;  // never use call forms that have no result (operator=, clear())
   std::string log;
   explicit Kinds(unsigned long long seed) : state(seed * 0x9E3779B97F4A7C15ull + 0x1234567) {}
   unsigned next(unsigned n) {
@@ -276,7 +277,7 @@ inline std::string exec(World& w, const Op& o, Kinds& ks) {
         JsonVariant root = T.template as<JsonVariant>();
         r = withScalar(o.v, ks, [&](auto&& x) { return root.set(x); });
       } else {
-        unsigned how = std::is_same<TT, JsonVariant>::value ? 0 : ks.next(2);
+        unsigned how = (std::is_same<TT, JsonVariant>::value || ks.preferSet) ? 0 : ks.next(2);
         if (how == 0 || t == "n") {
           r = withScalar(o.v, ks, [&](auto&& x) { return T.set(x); });
         } else {
@@ -299,7 +300,7 @@ inline std::string exec(World& w, const Op& o, Kinds& ks) {
       } else {
         if (t == "a") res = T.template to<JsonArray>();
         else if (t == "o") res = T.template to<JsonObject>();
-        else if (o.r == 0 && ks.next(2) == 0) { T.clear(); ret = "skip"; }
+        else if (o.r == 0 && !ks.preferSet && ks.next(2) == 0) { T.clear(); ret = "skip"; }
         else res = T.template to<JsonVariant>();
       }
       if (ret != "skip") ret = res.isUnbound() ? "unbound" : "bound";
